@@ -80,6 +80,7 @@ class Target:
         self.nan_above = nan_above
         self.calls = []          # ("prior"|"lik", n_points, prior_attached_ok)
         self.fail_at = None      # raise at the k-th call (0-based over both callables)
+        self.shift0 = 0.0        # offset of coordinate 0's prior interval
         self.answers_in = None   # None: answer in the samples' namespace and dtype; "float32"/"float64": NumPy arrays of that width
         self.ncalls = 0
 
@@ -103,7 +104,10 @@ class Target:
         """Per-coordinate bounds of the box prior: a DIFFERENT interval for every coordinate (coordinate i: [-box+0.5 i, box-0.25 i]),
         so that a parameter handled with another parameter's bounds is visible."""
         i = np.arange(self.dims, dtype=float)
-        return -self.box + 0.5 * i, self.box - 0.25 * i
+        lo, hi = -self.box + 0.5 * i, self.box - 0.25 * i
+        lo[0] += self.shift0            # an interval that does not contain 0 (a standardised coordinate is mostly outside it)
+        hi[0] += self.shift0
+        return lo, hi
 
     def bounds_dict(self):
         """prior_bounds for Aspire, written in REVERSE parameter order (bounds belong to parameters by name, not by position)."""
